@@ -28,10 +28,11 @@ enum kind_t
     k_release,
     k_swait,
     k_stry,
-    k_ssignal
+    k_ssignal,
+    k_ssetmax
 };
 static char const* kind_name[] = {
-    "acquire", "try_acquire", "try_acquire_until", "release", "swait", "stry_wait", "ssignal"};
+    "acquire", "try_acquire", "try_acquire_until", "release", "swait", "stry_wait", "ssignal", "ssetmax"};
 
 struct opdesc
 {
@@ -59,6 +60,7 @@ struct sem_any
 
 static std::atomic<long> est_permits{0};    // ledger of *returned* calls (driver's drain rule)
 static std::atomic<long> est_lower{0};
+static std::atomic<long> est_md{1};    // the sliding semaphore's configured distance as last set
 
 static void do_op(sem_any& sem, int a, opdesc const& o, actor_state& st, bool on_pika)
 {
@@ -101,6 +103,11 @@ static void do_op(sem_any& sem, int a, opdesc const& o, actor_state& st, bool on
         break;
     case k_stry: res = sem.s->try_wait(o.n) ? 1 : 0; break;
     case k_ssignal: sem.s->signal(o.n); break;
+    case k_ssetmax:
+        sem.s->set_max_difference(o.n);    // (lower limit: the default 0)
+        est_md.store(o.n);
+        est_lower.store(0);
+        break;
     }
     // ledger update strictly before the return record / blocking flag reset
     if ((o.k == k_acquire || o.k == k_try || o.k == k_timed) && res == 1) est_permits -= 1;
@@ -138,7 +145,7 @@ int main(int argc, char** argv)
     for (int h = 0; h < nhist && !hung; ++h)
     {
         sem_any sem;
-        sem.type = (int) R.below(5) == 0 ? 2 : ((int) R.below(4) == 0 ? 1 : 0);
+        sem.type = (int) R.below(3) == 0 ? 2 : ((int) R.below(4) == 0 ? 1 : 0);
         long p0 = sem.type == 1 ? (long) R.below(2) : (long) R.below(3);
         long md = 1 + (long) R.below(3), lo = (long) R.below(2);
         if (sem.type == 0) sem.c = std::make_unique<pika::counting_semaphore<>>(p0);
@@ -146,6 +153,7 @@ int main(int argc, char** argv)
         if (sem.type == 2) sem.s = std::make_unique<pika::sliding_semaphore>(md, lo);
         est_permits = p0;
         est_lower = lo;
+        est_md = md;
         ev("init").i("p0", sem.type == 2 ? 0 : p0).i("md", md).i("lo", lo).i("type", sem.type).done();
 
         int nact = 2 + (int) R.below(4);
@@ -162,9 +170,20 @@ int main(int argc, char** argv)
                 o.pre_yields = (int) R.below(3);
                 if (sem.type == 2)
                 {
-                    int r = (int) R.below(3);
-                    o.k = r == 0 ? k_swait : (r == 1 ? k_stry : k_ssignal);
+                    int r = (int) R.below(7);
+                    o.k = r < 2 ? k_swait : (r < 4 ? k_stry : k_ssignal);
                     o.n = (long) R.below(6);
+                    if (r == 6)
+                    {
+                        // the configured distance changes while others may be blocked; a signal follows, so
+                        // that waiters look at the new distance
+                        o.k = k_ssetmax;
+                        o.n = 1 + (long) R.below(4);
+                        scripts[a].push_back(o);
+                        o.k = k_ssignal;
+                        o.n = (long) R.below(6);
+                        o.pre_yields = 0;
+                    }
                 }
                 else
                 {
@@ -263,7 +282,7 @@ int main(int argc, char** argv)
                 // some blocked waiter is already within distance according to returned signals?
                 for (int a = 0; a < nact; ++a)
                     if (st[a].blocking.load() == 1 && now - st[a].since.load() > 4000 &&
-                        st[a].arg.load() - md <= est_lower.load())
+                        st[a].arg.load() - est_md.load() <= est_lower.load())
                         could = true;
             }
             if (could)
@@ -283,7 +302,7 @@ int main(int argc, char** argv)
             if (sem.type == 2)
             {
                 o.k = k_ssignal;
-                o.n = std::max<long>(est_lower.load() + 1, want - md);
+                o.n = std::max<long>(est_lower.load() + 1, want - est_md.load());
             }
             else
             {
